@@ -273,6 +273,9 @@ def hdoc_object(name):
 # --------------------------------------------------------------------------
 # objects
 
+_SHARED_REPORT_FORMATTER = None
+
+
 def build_enum(spec):
     vals = {}
     for v, name, synt in spec["values"]:
@@ -446,6 +449,12 @@ def build_object(spec, enums):
         return Built(k, f, spec, recs)
     if k == "ghist":
         coll = fakegit.make_collection(spec["repo"])
+        if spec.get("shared_fmt"):
+            # one formatter object serving all the reports of the application (make_report's own argument)
+            global _SHARED_REPORT_FORMATTER
+            if _SHARED_REPORT_FORMATTER is None:
+                _SHARED_REPORT_FORMATTER = akghist.ReportFormatter()
+            return Built(k, coll.make_report(spec["bug"], report_formatter=_SHARED_REPORT_FORMATTER), spec)
         return Built(k, coll.make_report(spec["bug"]), spec)
     if k == "hdoc":
         return Built(k, hdoc_object(spec["what"]), spec)
